@@ -32,28 +32,31 @@ USED = (
     "lists, reductions other than mean/median/sum/min/max, one-shot iterables, keyword arguments forwarded through **kwargs, the kind of "
     "random_state (None / int / RandomState), numpy's global error mode, duplicate data locations, non-injective projections, late binding "
     "in generators, accuracy lost by reordering arithmetic at large coordinate offsets, label dtype overflow for many blocks, far "
-    "extrapolation, broadcast-compatible shapes accepted as equal, pathlib / bytes paths, all-negative values"
+    "extrapolation, broadcast-compatible shapes accepted as equal, pathlib / bytes paths, all-negative values, ARGUMENT ALIASING (column "
+    "views of one table in another order, the same object for two arguments, pass-through projections, a fitted model keeping a view of "
+    "the caller's data), degenerate geometry (zero-extent regions, all-zero coordinates, zero weights on the border, zero-length "
+    "profiles), zero-stride and big-endian arrays, one public call's output fed into another, name collisions, lazy results consumed "
+    "after re-configuration, eleven or more coordinate arrays, unstable sorts of ties"
 )
 
 IDEAS = (
-    "ARGUMENT ALIASING: the same array object (or overlapping views of one buffer) passed as two different arguments - easting is northing, "
-    "data is weights, query coordinates are the data coordinates, the region array is a slice of the coordinates; array SUBCLASSES and odd "
-    "ndarray kinds: np.matrix (stays 2-D under ravel / indexing), np.recarray fields, non-native byte order ('>f8'), zero-stride arrays from "
-    "np.broadcast_to, negative strides ([::-1]), float16, bool or object dtype holding numbers, complex with zero imaginary part; DEGENERATE "
-    "GEOMETRY the statement still covers: collinear points, all points identical, one or two points, constant data, some weights exactly zero, "
-    "a region of zero width or height, a single block / window / fold; NAMES: non-ASCII names, names with spaces, a data name or dimension "
-    "name that collides with an existing coordinate name ('easting', 'northing', 'distance'), very long names, names that are not str "
-    "(int, tuple); OPTION INTERPLAY: three options that are each tested alone (e.g. projection + extra coordinates + several data "
-    "components; center_coordinates + drop_coords + weights + region; pixel registration + adjust + per-direction spacing); engine / "
-    "backend selection ('auto' vs explicit 'numpy', optional dependencies such as numba or pykdtree being absent); USER SUBCLASSES of the "
-    "public base classes (a BaseGridder subclass that overrides predict or jacobian, a BlockReduce subclass, a cross-validator subclass) "
-    "relying on documented hooks; OUTPUT OF ONE PUBLIC FUNCTION FED INTO ANOTHER (grid -> grid_to_table -> BlockReduce -> fit; "
-    "train_test_split output into fit/score; grid_coordinates output into block_split / inside / rolling_window) where an attribute such "
-    "as dtype, contiguity, a read-only flag or an index survives the first call; lazily evaluated inputs (dask arrays, xarray objects "
-    "backed by dask) where the property covers them; mutation of the input BETWEEN creating a generator / lazy object and consuming it; "
-    "dependence on dict / set iteration order or on id()-based ordering; integer inputs large enough that an intermediate int32 / intp "
-    "product overflows; the documented behaviour for the SECOND and later components of multi-component data (loop variable captured, "
-    "first component reused); exceptions swallowed by a broad except that then falls back to a different algorithm"
+    "calls that rely on DEFAULTS (a default argument value, a default taken from a class attribute, a default computed from other "
+    "arguments) changed for one path only - a caller that spells every argument out never notices; the EXTREMES of a documented "
+    "parameter domain (k = 1 and k = number of points, n_splits = 2, balancing = 1, test_size that leaves one block, degree 0, Poisson "
+    "ratio exactly -1 or 1, mindist 0, damping at 1e-8 / 1e2, size = 1 or 2, shape (1, 1), a single window size); THREE OR MORE data "
+    "components or weights arrays where the code was written with one or two in mind; DEEP NESTING (a Chain inside a Vector inside a "
+    "Chain, three levels, nested parameter names step__param through set_params / get_params(deep=True)); the TYPE, DTYPE and "
+    "OWNERSHIP of what is RETURNED (tuple vs list vs array, Python float vs 0-d array, bool mask dtype, integer label dtype, returned "
+    "components of one call sharing memory with each other); ITERATION PROTOCOLS (split() generators partially consumed, the same "
+    "cross-validator object split twice, a generator returned where a list is documented); EXCEPTIONS RAISED INSIDE USER CALLBACKS (a "
+    "reduction, projection or scorer that raises for some block / point) leaving an object half-updated or being swallowed; text-format "
+    "variety for file readers (CRLF line endings, tabs, trailing blank lines, a byte-order mark, Fortran 'D' exponents, '+' signs, "
+    "'nan' / 'inf' tokens, numbers without leading zero); FLOAT KEYS (-0.0 vs 0.0, values that differ by one ulp used as dictionary "
+    "keys, np.unique on floats); behaviour that depends on the ORDER OF THE POINTS only through ties (two points at the same distance, "
+    "two blocks with the same population, two candidates with the same score) where the statement fixes the outcome; a value computed "
+    "BEFORE validation and used after it (or validated in one representation and used in another: list vs array, before vs after "
+    "raveling); properties that must hold for EVERY element of an output but are only true on average (e.g. balanced on the whole but "
+    "one fold empty); off-by-one in a DOCUMENTED count (number of nodes, of windows, of folds, of returned arrays)"
 )
 
 
